@@ -91,7 +91,7 @@ def explore_subtree(scenario: Scenario, name: str, prefix: list[int], expect: li
         if any(ch.trace):
             part.nontrivial += 1
         for sig, detail in viols:
-            part.viol(sig, detail, {"scenario": name, "choices": ch.trace, "schedule": ch.schedule()})
+            part.viol(sig, detail, {"scenario": name, "choices": ch.trace, "schedule": ch.schedule()}, rank=(sum(1 for c in ch.trace if c), len(ch.trace), name))
         if part.evaluations <= 1 or (any(ch.trace) and len(part.samples) < 4):
             part.sample({"scenario": name, "schedule": ch.schedule(), "outcome": outcome})
         if part.evaluations >= max_runs:
@@ -153,7 +153,7 @@ def explore(ctx: Any, modname: str, scen_name: str, scen_args: tuple[Any, ...], 
         if any(ch.trace):
             root.nontrivial += 1
         for sig, detail in viols:
-            root.viol(sig, detail, {"scenario": name, "choices": ch.trace, "schedule": ch.schedule()})
+            root.viol(sig, detail, {"scenario": name, "choices": ch.trace, "schedule": ch.schedule()}, rank=(sum(1 for c in ch.trace if c), len(ch.trace), name))
         if root.evaluations == 1:
             root.sample({"scenario": name, "schedule": ch.schedule(), "outcome": outcome})
         spent = 0
